@@ -109,7 +109,7 @@ def run(tier):
                                     "offset": e["tamper"]["i"] if e.get("tamper") else None,
                                     "stride": 10**9 if e.get("tamper") else None, "max_index": 1 if e.get("tamper") else None},
                        "event": {k: v for k, v in e.items() if k != "exposed"}})
-    if not st["actions"].get("TOp") and not rejected:
+    if not good and not rejected:
         raise vlib.ToolError("vacuity: no operation validated")
     if demo:
         header = [r for r in row_sets[0] if r["ev"] in ("header", "Params")]
